@@ -43,6 +43,7 @@ import RV.Model.DictParser
 import RV.Proofs.DictInclude
 import RV.Proofs.DictWalk
 import RV.Proofs.DictGuards
+import RV.Proofs.DictIO
 namespace RV.C15
 open RV RV.Dict RV.DictParser
 
@@ -495,5 +496,172 @@ example : Guarded.idx [[1], [2], [3]] 3 = none ∧ Guarded.byteAt [1, 2, 3] 9 = 
     Guarded.byteAt [] (Guarded.len ([] : Bytes) - 1) = none := by decide
 /-- `VENDOR x 1 f`: a fourth field shorter than 10 bytes is refused without touching `f[3][7..9]` -/
 example : Guarded.formatOKG Cfg.tree [102] = some false := Guarded.formatOKG_short _ _ (by decide)
+
+/-! ### I/O failures: a reader that fails, a `Close` that fails (RV.Model.DictParserIO)
+
+  In the model above a file is `(name, text)` and neither reading nor closing it can fail; parser.go
+  has an exit for each (`s.Err()` at line 258, `incFile.Close()` at line 233).  The layer
+  RV.Model.DictParserIO gives every file two flags - `(name, text, readFails, closeFails)`, see the
+  head of that file for what exactly the reader and `Close` do - and two further outcomes:
+  `readErr` (the bare error of the reader) and `closeErr file line name` (a ParseError at the
+  `$INCLUDE` line of the including file).  It mirrors the repaired include rule only.  Nothing
+  above is changed by it: `io_refines` says that without flags it is the function all theorems above
+  are about. -/
+
+/-- without failure flags `parseFileIO` is `parseFile` (repaired rule) on the same files -/
+theorem io_refines (cfg : Cfg) (ign : Bool) (fs : FSIO) (root : Bytes) (h : cfg.includePath = true)
+    (hnf : fs.NoFlags) : parseFileIO cfg ign fs root = (parseFile cfg ign fs.erase root).lift :=
+  parseFileIO_refines cfg ign fs root h hnf
+
+/-- … in particular on every file system of the model above, read as one whose files never fail -/
+theorem io_refines_embedded (cfg : Cfg) (ign : Bool) (fs : FS) (root : Bytes) (h : cfg.includePath = true) :
+    parseFileIO cfg ign (FSIO.ofFS fs) root = (parseFile cfg ign fs root).lift :=
+  parseFileIO_ofFS cfg ign fs root h
+
+/-- the per-line code is the one of the model above: with one of its handlers, a step of the layer
+    is its step -/
+theorem io_line_step_faithful (cfg : Cfg) (ign : Bool) (h : IncludeHandler) (file : Bytes) (lineNo : Nat)
+    (vb : Option Bytes) (st : St) (raw : Bytes) :
+    stepLineIO cfg ign h.lift file lineNo vb st raw = (stepLine cfg ign h file lineNo vb st raw).lift :=
+  stepLineIO_lift cfg ign h file lineNo vb st raw
+
+/-- EVERY FILE OPENED IS CLOSED - on every file system, whichever readers and `Close` calls fail,
+    whatever the outcome -/
+theorem io_opens_closed (cfg : Cfg) (ign : Bool) (fs : FSIO) (root : Bytes) :
+    OpensClosed (parseFileIO cfg ign fs root).2.log :=
+  parseFileIO_opensClosed cfg ign fs root
+
+/-- every failure is explained (`FailureIO.Explained`, RV.Proofs.DictIO): the clauses below, in one -/
+theorem io_failure_explained (cfg : Cfg) (ign : Bool) (fs : FSIO) (root : Bytes) (e : FailureIO)
+    (he : (parseFileIO cfg ign fs root).1 = some e) : e.Explained cfg ign fs root :=
+  parseFileIO_explained cfg ign fs root e he
+
+/-- the bare read error is returned only if some file `g` on the walk has a failing reader, the
+    scanner was content with what it delivered (no line of 64 KiB), and all lines of `g` went
+    through: with a reader that does not fail, the parse of `g` from the same state and include path
+    ends in success, or in nothing but `UnclosedVendorBlock` (which `s.Err()` precedes) -/
+theorem io_read_failure_reported (cfg : Cfg) (ign : Bool) (fs : FSIO) (root : Bytes)
+    (he : (parseFileIO cfg ign fs root).1 = some .readErr) :
+    ∃ g e path st0 st1, (g = root ∨ Reaches fs.erase root g) ∧ fs.lookup g = some e ∧ e.2.1 = true ∧
+      (Lex.lines e.1).2 = false ∧
+      (parseFileFixIO cfg ign fs path g e.1 false st0 = (none, st1) ∨
+       ∃ l, parseFileFixIO cfg ign fs path g e.1 false st0
+         = (some (.base (.decl .unclosedVendorBlock g l)), st1)) :=
+  parseFileIO_explained cfg ign fs root _ he
+
+/-- a `Close` error is a ParseError `{File f, Line l}`: `f` is a file on the walk, line `l` of it,
+    counted from 1, is the directive `$INCLUDE n`, `n` is a file whose `Close` fails, and the parse
+    of `n` (its reader included) went through without failure -/
+theorem io_close_failure_reported (cfg : Cfg) (ign : Bool) (fs : FSIO) (root f n : Bytes) (l : Nat)
+    (he : (parseFileIO cfg ign fs root).1 = some (.closeErr f l n)) :
+    ∃ e en path st0 st1, (f = root ∨ Reaches fs.erase root f) ∧ fs.lookup f = some e ∧
+      (1 ≤ l ∧ ∃ raw, (Lex.lines e.1).1[l - 1]? = some raw ∧
+        Lex.fields (Lex.stripComment raw) = [kwINCLUDE, n]) ∧
+      fs.lookup n = some en ∧ en.2.2 = true ∧
+      parseFileFixIO cfg ign fs path n en.1 en.2.1 st0 = (none, st1) :=
+  parseFileIO_explained cfg ign fs root _ he
+
+/-- every ParseError-class failure, the `Close` error included, names a file of the file system
+    and a line of it, counted from 1 -/
+theorem io_error_line (cfg : Cfg) (ign : Bool) (fs : FSIO) (root : Bytes) (e : FailureIO)
+    (he : (parseFileIO cfg ign fs root).1 = some e) :
+    match e with
+    | .base (.decl _ f l) | .base (.openErr f l _) | .base (.recursive f l _) | .closeErr f l _ =>
+        ∃ en, fs.lookup f = some en ∧ 1 ≤ l ∧ l ≤ (Lex.lines en.1).1.length
+    | _ => True := by
+  have hx := parseFileIO_explained cfg ign fs root e he
+  match e, hx with
+  | .base (.decl _ f l), ⟨en, _, hl, h1, h2⟩ => exact ⟨en, hl, h1, h2⟩
+  | .base (.openErr f l n), ⟨en, _, hl, hline, _⟩ => exact ⟨en, hl, hline.1, hline.le⟩
+  | .base (.recursive f l n), ⟨en, _, hl, hline, _⟩ => exact ⟨en, hl, hline.1, hline.le⟩
+  | .closeErr f l n, ⟨en, _, _, _, _, _, hl, hline, _⟩ => exact ⟨en, hl, hline.1, hline.le⟩
+  | .base .scanner, _ => trivial
+  | .base .rootOpen, _ => trivial
+  | .base .outOfFuel, _ => trivial
+  | .readErr, _ => trivial
+
+/-- the layer has no fuel and never runs out of it -/
+theorem io_never_out_of_fuel (cfg : Cfg) (ign : Bool) (fs : FSIO) (root : Bytes) :
+    (parseFileIO cfg ign fs root).1 ≠ some (.base .outOfFuel) :=
+  fun he => parseFileIO_explained cfg ign fs root _ he
+
+/-- a reported RecursiveInclude is a real cycle of the include graph, whatever the flags -/
+theorem io_cycle_reported (cfg : Cfg) (ign : Bool) (fs : FSIO) (root f n : Bytes) (l : Nat)
+    (hr : (parseFileIO cfg ign fs root).1 = some (.base (.recursive f l n))) :
+    Includes fs.erase f n ∧ (n = f ∨ Reaches fs.erase n f) ∧ (f = root ∨ Reaches fs.erase root f) :=
+  parseFileIO_recursive_real cfg ign fs root f n l hr
+
+/-- acyclic graphs are never reported as recursive, whatever the flags -/
+theorem io_no_false_cycle (cfg : Cfg) (ign : Bool) (fs : FSIO) (root : Bytes)
+    (hac : ¬ HasCycle fs.erase root) (f n : Bytes) (l : Nat) :
+    (parseFileIO cfg ign fs root).1 ≠ some (.base (.recursive f l n)) :=
+  parseFileIO_acyclic_not_recursive cfg ign fs root hac f n l
+
+/-- a run that succeeds is - dictionary and log - the run of the model above on the same files … -/
+theorem io_ok_is_plain_run (cfg : Cfg) (ign : Bool) (fs : FSIO) (root : Bytes) (h : cfg.includePath = true)
+    (st : St) (hr : parseFileIO cfg ign fs root = (none, st)) : parseFile cfg ign fs.erase root = (none, st) :=
+  parseFileIO_ok_erase cfg ign fs root h st hr
+
+/-- … so a graph with a reachable cycle is never accepted -/
+theorem io_ok_implies_acyclic (cfg : Cfg) (ign : Bool) (fs : FSIO) (root : Bytes) (h : cfg.includePath = true)
+    (hok : (parseFileIO cfg ign fs root).1 = none) : ¬ HasCycle fs.erase root :=
+  parseFileIO_ok_acyclic cfg ign fs root h hok
+
+/-- NO FAILURE IS SWALLOWED: if `ParseFile` succeeds, the root's reader did not fail, and every file
+    that was opened for an `$INCLUDE` has a reader that does not fail and a `Close` that does not
+    fail (`LogClean`); the log is the root's bracket around those opens and closes -/
+theorem io_failures_not_swallowed (cfg : Cfg) (ign : Bool) (fs : FSIO) (root : Bytes) (st : St)
+    (hr : parseFileIO cfg ign fs root = (none, st)) :
+    (∃ en, fs.lookup root = some en ∧ en.2.1 = false) ∧
+    ∃ w, st.log = Event.opened root :: (w ++ [Event.closed root]) ∧
+      ∀ n, Event.opened n ∈ w → ∃ en, fs.lookup n = some en ∧ en.2.1 = false ∧ en.2.2 = false :=
+  parseFileIO_ok_no_flags cfg ign fs root st hr
+
+/-- for evaluation: `parseFileIO` is its twin with `fs.length + 1` levels of fuel -/
+theorem io_eval (cfg : Cfg) (ign : Bool) (fs : FSIO) (root : Bytes) :
+    parseFileIO cfg ign fs root = parseFileFuelIO cfg ign fs root :=
+  parseFileIO_eq_fuel cfg ign fs root
+
+/-! #### Non-vacuity (by evaluation) -/
+
+/-- the reader of the included file `a` fails after its last line: bare read error; `a` was closed
+    (once: only the deferred `Close` runs), the root was closed; the VALUE of `a` had been read,
+    the root's second line was not -/
+example : parseFileIO Cfg.tree false fsReadFails nmRoot =
+    (some .readErr,
+     { dict := { values := [{ attrName := [65], name := [118], number := 1 }] },
+       log := [.opened nmRoot, .opened nmA, .closed nmA, .closed nmRoot] }) := by
+  rw [io_eval]; decide
+
+/-- the same reader failing in the middle of a line: the scanner delivers the fragment `VAL`, and
+    its refusal (line 2 of `a`) is reported, not the read error -/
+example : (parseFileIO Cfg.tree false fsReadTruncated nmRoot).1 = some (.base (.decl .unknownLine nmA 2)) := by
+  rw [io_eval]; decide
+
+/-- a failing reader and an unclosed vendor block: the read error comes first -/
+example : (parseFileIO Cfg.tree false fsReadThenUnclosed nmRoot).1 = some .readErr := by
+  rw [io_eval]; decide
+example : (parseFileIO Cfg.tree false [(nmRoot, textOpenBlock, false, false)] nmRoot).1
+    = some (.base (.decl .unclosedVendorBlock nmRoot 2)) := by
+  rw [io_eval]; decide
+
+/-- the first `Close` of the included file fails: ParseError at line 1 of the ROOT naming `a`; `Close`
+    of `a` was called twice (explicit + deferred), the root was closed -/
+example : parseFileIO Cfg.tree false fsCloseFails nmRoot =
+    (some (.closeErr nmRoot 1 nmA),
+     { dict := { values := [{ attrName := [65], name := [118], number := 1 }] },
+       log := [.opened nmRoot, .opened nmA, .closed nmA, .closed nmA, .closed nmRoot] }) := by
+  rw [io_eval]; decide
+
+/-- `Close` failures that do not show: the root's, and that of a file whose parse failed -/
+example : parseFileIO Cfg.tree false fsCloseIgnored nmRoot =
+    (some (.base (.recursive nmA 1 nmRoot)),
+     { log := [.opened nmRoot, .opened nmA, .opened nmRoot, .closed nmRoot, .closed nmA, .closed nmRoot] }) := by
+  rw [io_eval]; decide
+
+/-- the flags are seen: the same files without them parse -/
+example : (parseFileIO Cfg.tree false (FSIO.ofFS fsReadFails.erase) nmRoot).1 = none := by
+  rw [io_eval]; decide
+example : ¬ fsReadFails.NoFlags := fun h => by have := (h _ (List.mem_cons_of_mem _ List.mem_cons_self)).1; cases this
 
 end RV.C15
